@@ -6,6 +6,7 @@
   as found the two counterexamples at the end hold instead.
 -/
 import DiskfsModel.Proofs.GptRobust
+import DiskfsModel.Proofs.MbrRead
 import DiskfsModel.Generated.GptRead
 namespace Diskfs.Gpt.C15
 
@@ -83,6 +84,57 @@ theorem partition_read_no_panic (c : Cfg) (hc : c.arrayBounded = true) (crc : By
       rcases List.mem_append.1 ha with h | h
       · exact hr.2 a h
       · exact hm a (by rw [heq2]; exact h)
+
+/-! ### mbr.Read and the partition.Read dispatch as the code is now (Model/MbrTable.lean): every Go slice and
+    index expression of tableFromBytes / partitionFromBytes yields `.panic` where Go would panic, so that no input
+    reaches one is a theorem and not a modelling decision; Read stamps the sector sizes the caller passes -/
+
+/-- TOTAL DECODE: tableFromBytes never panics, for a byte string of ANY length and content -/
+theorem mbr_table_from_bytes_total (b : Bytes) : (Mbr.tableFromBytes b).isPanic = false :=
+  Mbr.tableFromBytes_no_panic b
+
+/-- partitionFromBytes never panics either, whatever slice it is handed -/
+theorem mbr_partition_from_bytes_total (i : Nat) (b : Bytes) : (Mbr.partFromBytes i b).isPanic = false :=
+  Mbr.partFromBytes_no_panic i b
+
+/-- mbr.Read never panics and requests exactly one buffer of 512 bytes — for every device content, every device
+    size (shorter than a sector included) and every pair of sector sizes handed in (zero, negative, huge) -/
+theorem mbr_read_total (d : Dev) (devSize : Nat) (lbs pbs : Int) :
+    (Mbr.readT d devSize lbs pbs).1.isPanic = false ∧ (Mbr.readT d devSize lbs pbs).2 = [512] :=
+  Mbr.readT_total d devSize lbs pbs
+
+/-- what mbr.Read accepts, exactly: a device of at least 512 bytes whose first sector ends in 55 AA and whose
+    four boot flags are 00 or 80 (`Mbr.read` is the by-construction-total decoder); the table then carries the
+    caller's sector sizes when positive, else 512 -/
+theorem mbr_read_decides (d : Dev) (devSize : Nat) (lbs pbs : Int) :
+    Mbr.readT d devSize lbs pbs =
+      (match (Mbr.read d devSize).1 with
+        | some ps => .ok { parts := ps, lss := Mbr.stamp lbs, pss := Mbr.stamp pbs }
+        | none => .err false, [512]) :=
+  Mbr.readT_eq d devSize lbs pbs
+
+/-- partition.Read — gpt.Read first, mbr.Read on any error of it, both with the caller's sector sizes — never
+    panics, and every allocation of the whole dispatch is within the device size plus two sectors -/
+theorem partition_read_total (c : Cfg) (hc : c.arrayBounded = true) (crc : Bytes → Nat) (d : Dev) (devSize lss : Nat)
+    (pbs : Int) (hlss : 512 ≤ lss) :
+    (PartTable.readT c crc d devSize lss pbs).1.isPanic = false ∧
+    ∀ a ∈ (PartTable.readT c crc d devSize lss pbs).2, 0 ≤ a ∧ a ≤ (devSize : Int) + 2 * (lss : Int) :=
+  PartTable.readT_fixed c hc crc d devSize lss pbs hlss
+
+/-- the dispatch: an MBR table comes out of partition.Read only when gpt.Read did not succeed, and it is the
+    table mbr.Read returns on the same bytes -/
+theorem partition_read_mbr_fallback (c : Cfg) (crc : Bytes → Nat) (d : Dev) (devSize lss : Nat) (pbs : Int) (t : Mbr.Table)
+    (h : (PartTable.readT c crc d devSize lss pbs).1 = .ok (.mbr t)) :
+    (Mbr.readT d devSize (lss : Int) pbs).1 = .ok t ∧ (Gpt.read c crc d devSize lss).1.isOk = false :=
+  PartTable.readT_mbr c crc d devSize lss pbs t h
+
+-- non-vacuity: a device that decodes (an empty table written over zeros), byte strings that are refused, a
+-- device shorter than a sector
+example : (Mbr.readT (applyWrs (fun _ => 0) (Mbr.write [])) 512 4096 0).1.isOk = true := by
+  rw [Mbr.readT_writeT (fun _ => 0) ⟨[], 512, 512⟩ _ 512 4096 0 (by decide) (by simp) rfl]; rfl
+example : Mbr.tableFromBytes [1, 2, 3] = .err false ∧ Mbr.partFromBytes 1 [0x80, 1] = .err false ∧
+    Mbr.partFromBytes 1 [0x7f, 0, 0, 0, 0, 0, 0, 0, 0, 0, 0, 0, 0, 0, 0, 0] = .err false := by decide
+example : (Mbr.readT (fun _ => 0) 511 512 512).1 = .err false := by decide
 
 /-- as found: 2^32−1 entries in a CRC-valid header → a 512 GiB allocation request on a 1 MiB device -/
 theorem cex_alloc_unbounded (crc : Bytes → Nat) (d : Dev) (pm : Bool) :
